@@ -994,13 +994,26 @@ func (s *UtxoSweeper) markInputsPublishFailed(set InputSet,
 		// Update the input's state.
 		pi.state = PublishFailed
 
+		// Update the input using the fee rate specified from the
+		// BumpResult, which should be the starting fee rate to use for
+		// the next sweeping attempt.
+		//
+		// NOTE: some failures carry no fee rate (e.g., the tx has no
+		// output, or the fee function cannot be created), or carry one
+		// that's capped by the budget of the failed group. We never
+		// lower the fee rate that's already recorded for this input,
+		// which is either the one already offered in a previous
+		// attempt or the one found from its spending tx in the mempool,
+		// otherwise the next attempt would start over from an estimated
+		// fee rate below it.
+		if feeRate <= pi.params.StartingFeeRate.UnwrapOr(0) {
+			continue
+		}
+
 		log.Debugf("Input(%v): updating params: starting fee rate "+
 			"[%v -> %v]", op, pi.params.StartingFeeRate,
 			feeRate)
 
-		// Update the input using the fee rate specified from the
-		// BumpResult, which should be the starting fee rate to use for
-		// the next sweeping attempt.
 		pi.params.StartingFeeRate = fn.Some(feeRate)
 	}
 }
